@@ -688,6 +688,8 @@ func checkC13(c *Ctx) {
 	checkPooledBytesEscape(c, "R11")
 	c.Rule("R12", "no rewriting without a compression section: the decompression hook is registered only on the non-nil side of a test of the compression configuration")
 	checkDecompressOnlyWhenConfigured(c, "R12")
+	c.Rule("R14", "the whole value is read back: nothing in the compression filter bounds the number of decompressed bytes")
+	checkDecompressionReadsWholeStream(c, "R14")
 	c.Rule("R13", "the filter object, shared by the writer (compress) and the reader goroutine (decompress) of a backend connection, carries no mutable scratch state")
 	checkFilterHasNoScratchState(c, "R13")
 }
@@ -1343,4 +1345,42 @@ func predicateImpliesCompressionCfg(g *ssa.Function) bool {
 		}
 	})
 	return okAll && n > 0
+}
+
+// checkDecompressionReadsWholeStream (C13.R14): what the client reads back is the whole value: nothing in the
+// compression filter bounds the number of decompressed bytes. A limiting reader stops with a plain end of stream, so
+// the truncation is not an error - a very compressible value comes back as a prefix of what was written.
+func checkDecompressionReadsWholeStream(c *Ctx, rule string) {
+	p := c.P
+	n := 0
+	for _, fn := range p.FuncsIn(redisPkg) {
+		if p.isTestFn(fn) {
+			continue
+		}
+		top := topFn(fn)
+		if top.Signature.Recv() == nil || !modType(top.Signature.Recv().Type(), redisPkg, "compressFilter") {
+			continue
+		}
+		n++
+		var bad ssa.Instruction
+		eachInstr(fn, func(_ *ssa.BasicBlock, _ int, in ssa.Instruction) {
+			if isCallTo(in, "io.LimitReader", "io.CopyN", "io.ReadAtLeast", "io.ReadFull") {
+				bad = in
+			}
+			if al, ok := in.(*ssa.Alloc); ok {
+				if pt, ok := al.Type().(*types.Pointer); ok && types.TypeString(pt.Elem(), nil) == "io.LimitedReader" {
+					bad = in
+				}
+			}
+		})
+		site := fnKey(fn) + " does not bound the decompressed size"
+		if bad != nil {
+			c.Fail(rule, site, bad.Pos(), "the filter reads the (de)compressed stream through a reader that stops after a fixed number of bytes: the stop is a plain end of stream, not an error, so a value that expands further - zero-padded records, repeated JSON - is returned as a prefix of what the client wrote")
+		} else {
+			c.OK(rule, site, fn.Pos(), "no limiting reader")
+		}
+	}
+	if n == 0 {
+		c.Unresolved(rule, "methods of compressFilter")
+	}
 }
